@@ -1102,6 +1102,7 @@ impl CodegenContext {
                     }
 
                     self.macro_depth += 1;
+                    let first_offset = self.source_map.offsets().len();
                     let result = self.with_scope(&macro_scope, None, |s| {
                         for (arg_name, value) in def.args.iter().zip(arg_values) {
                             s.add_symbol(
@@ -1116,7 +1117,7 @@ impl CodegenContext {
                             // Move all source map offsets that refer to the macro definition's span to the macro invocation's span
                             // to make sure that the emitted bytes show up at the invocation site when generating a listing file
                             s.source_map
-                                .move_offsets(s.current_scope_nx, parent_scope, name.span);
+                                .move_offsets(first_offset, parent_scope, name.span);
                         }
 
                         Ok(())
